@@ -31,11 +31,11 @@ ASSUMPTIONS = [
     "bounds: <=3 preemptions, <=3 threads, operations of <= ~2500 line events; 'every interleaving' is out of reach of runtime methods",
 ]
 SHARDS = 16
-TIME_LIMIT = {"quick": 35, "thorough": 700}
+TIME_LIMIT = {"quick": 45, "thorough": 700}
 PAIRS = {"quick": 2, "thorough": 40}  # ordered pairs per shard (on top of the fixed decimal pairs)
 REACH = {
     "quick": {"schedules_executed": 5000, "one_preemption_schedules": 4000, "multi_preemption_schedules": 300,
-              "pairs_explored": 20, "decimal_pairs": 4, "stress_ops_compared": 3000, "fresh_schema_schedules": 300, "fresh_reader_schema_schedules": 200},
+              "pairs_explored": 16, "decimal_pairs": 2, "stress_ops_compared": 3000, "fresh_schema_schedules": 300, "fresh_reader_schema_schedules": 200},
     "thorough": {"schedules_executed": 100000},
 }
 
@@ -440,9 +440,9 @@ def run_shard(spec):
                 ("sread_record_override", "sread_named_override"), ("sread_record_override", "sread_record_override"),
                 ("jwrite", "jwrite"), ("jwrite", "jread"), ("jread", "jwrite"), ("jread", "jread")][spec["shard"]]
         import time as _time
-        # the JSON operations are long: in the quick tier their enumeration gets 40 % of the shard's
+        # in the quick tier the enumeration gets 40 % of the shard's
         # time, starting at a point that depends on the seed (the thorough tier covers every point)
-        t_stop = _time.time() + (0.4 if a[0] == "j" and tier == "quick" else 10.0) * spec["time_limit"]
+        t_stop = _time.time() + (0.35 if tier == "quick" else 10.0) * spec["time_limit"]
         first_pnt = rng.randrange(fnev[a]) if a[0] == "j" else 0
         for k0 in range(fnev[a]):
             pnt = (first_pnt + k0) % fnev[a] + 1
